@@ -7,6 +7,48 @@ VERIF = os.path.dirname(os.path.dirname(os.path.abspath(__file__)))
 
 # pid -> (technique, level text, level_note, design_ref)
 CHECKS = {
+    'C01': (
+        'Coq proof (worklist invariant for any pop policy; CSR rows of all three factory models characterised; end-to-end query spec) + per-run vm_compute correspondence with src/hpotk/graph/*.py',
+        'Machine-checked theorems for EVERY non-empty acyclic edge list, every shipped factory (model of CsrIndexedGraphFactory, IncrementalCsrGraphFactory, '
+        'CsrGraphFactory incl. root finding, node sorting, bisect/dict lookup, edge grouping with the last-subject cache, CSR assembly, the matrix builder), '
+        'every node, every argument form and both flags: the factory succeeds and get_parents/children/ancestors/descendants return, each node exactly once, '
+        'exactly the is_a objects/subjects resp. the nodes reachable over >= 1 is_a edges up/down (clos_trans), and include_source adds the source exactly once '
+        'and nothing else. The stack DFS and deque BFS are instances of one worklist theorem proved for any pop policy. Correspondence: all 542 acyclic edge sets '
+        'on 4 positions x 2 label pools + random shape families, 3 real factories, every node/query/flag.',
+        'Trusted: Coq kernel + vm_compute; numpy arrays, dict/bisect lookup, deque/list buffers, generator laziness modelled functionally; TermId nodes '
+        'represented by (prefix,id) keys (C04). Hypothesis: owl:Thing is not itself an input term. The model contains the de-duplication of repeated edges '
+        'introduced by the fix: commit 8229d06.',
+        '§4 C01'),
+    'C02': (
+        'Coq proof (root finding, node extraction, edge-set invariance via canonical sort_unique and the C01 characterisation) + per-run vm_compute correspondence with src/hpotk/graph/_factory.py',
+        'Machine-checked theorems for every acyclic edge list and every factory: nodes = exactly the mentioned terms, each once (sorted), plus owl:Thing iff '
+        '>= 2 parentless terms; root = the single parentless term or owl:Thing whose children are exactly the parentless terms; root has no parents; every '
+        'other node reaches the root; ANY two edge lists with the same edge set (all permutations and all multisets of repeats at once) give equal node '
+        'lists, equal roots and equal answers to every query/predicate/leaf/membership call (queries as multisets), across factories; inputs without a '
+        'parentless term are rejected with ValueError. Correspondence: every C01 graph rebuilt from shuffled / reversed / repeated-edge / grouped-by-object '
+        'variants, 1..4 roots, all three real factories.',
+        'Trusted: as C01; Python set iteration order of root candidates is modelled by a sorted list (proved irrelevant). Repeated edges: genuine defect '
+        'fixed in /repo (fix: 8229d06).',
+        '§4 C02'),
+    'C03': (
+        'Coq proof (agreement of the three factory models and two graph-class models, predicates = membership, converse, index bijection, index API mirror, argument forms) + per-run vm_compute correspondence',
+        'Machine-checked theorems for every acyclic edge list: all three factories answer every query (as a set), predicate, leaf and membership call '
+        'identically; is_*_of(sub,obj) is true exactly when the traversal of obj contains sub, is_leaf exactly when there are no children, so parent/child and '
+        'ancestor/descendant are converse; node_to_idx/idx_to_node are inverse bijections between nodes and 0..n-1, root_idx maps to the root; every *_idx '
+        'query/predicate equals the node API through that bijection; str / TermId / Identified arguments give identical results. Correspondence: all ordered '
+        'pairs of nodes x 5 predicates x 3 factories x 3 argument forms and the full index API on every small graph.',
+        'Trusted: as C01. __contains__ is exercised with TermId operands (its declared signature); the index API exists on the indexed graph only.',
+        '§4 C03'),
+    'C14': (
+        'Coq proof (every error path of the node and index API of both graph-class models) + per-run vm_compute correspondence with boundary integers and absent / malformed arguments',
+        'Machine-checked theorems for every graph built from an acyclic edge list: an absent term id raises ValueError in all traversals and is_leaf, in '
+        'is_*_of as object, gives False as subject, membership False, node_to_idx None; non-CURIE strings and non-node objects raise ValueError in every '
+        'method; EVERY integer outside 0..n-1 (negative included, unbounded Z) raises ValueError in get_*_idx and idx_to_node; for is_*_of_idx an out-of-range '
+        'walked index raises ValueError and an out-of-range other index never yields True. Correspondence: absent ids before/between/after/foreign prefix, '
+        'malformed values, integers {-n-2..-1, n..n+2, 10^6, 2^63} and numpy ints on every method of both graph classes.',
+        'Trusted: as C01; numpy integer indexing modelled by explicit range checks. Off-by-one row check and negative idx_to_node: genuine defect fixed in '
+        '/repo (fix: 929e410). Reading of the two-index predicates fixed in DESIGN §4 C14.',
+        '§4 C14'),
     'C04': (
         'Coq proof over a Gallina model of TermId + per-run vm_compute correspondence with src/hpotk/model/_term_id.py',
         'Machine-checked theorems (all strings, all term ids, no bound): parse succeeds iff a delimiter is present and splits at the '
